@@ -963,6 +963,7 @@ class C01(PropBase):
     translators = ["c01_sites.py"]
     bins = ["c01"]
     impl_timeout = 240
+    model_timeout = 1800     # thorough tier on a loaded machine: a model shard (9 000 cases) was seen to exceed the default 900 s
     impl_mem_gb = 4
     rule = ("case = a byte string offered as a minidump (hex, or a /repo/testdata file with u32 patches). Exhaustive blocks: truncation of a "
             "10-stream dump at every offset; every 4-byte-aligned u32 of that dump replaced by each of {0,1,len-1,len,len+1,2^31,2^32-1}; both endians. "
@@ -1028,7 +1029,7 @@ class C01(PropBase):
         g.exercised(500 if q else 6000)
         g.round2(400 if q else 5000)
         g.round3()
-        g.round4(1500 if q else 24000)
+        g.round4(1500 if q else 9000)
         g.location_content_product()
         g.utf16_edge_product()
         g.synth_and_samples(700 if q else 8000, 160 if q else 2500)
